@@ -148,14 +148,18 @@ CHECKS = {
         design='Appendix B (SSH)', note=CLS_NOTE + " MD5/SHA-1/SHA-256 are abstract functions in the theorems (hashlib trusted)."),
     'C18': dict(
         technique='Lean 4 proof over a model of the text scanner and of the component tables regenerated from the code: parse is invariant under an inductive family of RFC-insignificant respellings + correspondence of the scanner and name matching + variant oracle on the real code',
-        text=("44 theorems (CpProps/C18a.lean, C18.lean): scanner level - optional whitespace runs, empty elements, separators; "
-              "table level - matches_rfc (the live name-matching modes equal the RFC rules, no deviation left), "
-              "fields_spelling_invariant: for every table without positional component every combination of whitespace/empty-"
-              "element edits, reordering, unknown directives with fresh names and re-casing of case-insensitive names parses to "
-              "the same result, instantiated for nine live classes; the full statement over all classes is refuted with "
-              "witnesses for the two positional classes (Content-Type, X-XSS-Protection) and the partial kept. The oracle "
-              "generates spellings from the RFC grammars for every listed header/record type and compares parsed objects; header "
-              "blocks are compared field by field with a reference splitter. Quote-unaware splitting is a known finding."),
+        text=("72 theorems (CpProps/C18a.lean, C18.lean): scanner level - optional whitespace runs, empty elements, separators, for the "
+              "plain and for the quote-aware list scanner (a separator inside a quoted-string does not split: "
+              "quoted_separator_not_split; the quote-aware scanner equals its functional specification on ANY bytes incl. unbalanced "
+              "quotes and backslashes, is total, crash-free and linear: <= 21*len+15 steps); table level - matches_rfc (the live "
+              "name-matching modes equal the RFC rules, no deviation left), fields_spelling_invariant: for every table without "
+              "positional component every combination of whitespace/empty-element edits, reordering, unknown directives with fresh "
+              "names - also with quoted values containing the separator - and re-casing of case-insensitive names parses to the same "
+              "result, instantiated for nine live classes; the canonical spelling with a separator inside a quoted value parses back; "
+              "the full statement over all classes is refuted with witnesses for the two positional classes (Content-Type, "
+              "X-XSS-Protection) and the partial kept. The oracle generates spellings from the RFC grammars for every listed "
+              "header/record type and compares parsed objects; header blocks are compared field by field with a reference splitter. "
+              "Quote-unaware splitting and the all-or-nothing CSP policy were defects, repaired in /repo."),
         design='Appendix B (C18)', note=COMMON_NOTE + " Component value parsers (URLs, dates, base64) are outside the model; the variant oracle runs on the real code."),
     'C19': dict(
         technique='Lean 4 proof of linear tick bounds for an instrumented copy of the model parsers (ticks per loop pass / primitive / table search), of declared-count independence and of bounded class-graph depth + line-event scaling measurements of the real code',
